@@ -45,7 +45,7 @@ def dfs_rule(ctx, fn, edges_fn, far_fn):
     okl = lp is not None and nx and nx[0].bb in lp[1]
     if okl:
         recv = deep_strip(tm.operand(nx[0].args[0], nx[0].bb))
-        okl = not [x for x in calls_in(recv) if re.search(r"Iterator::(take|skip|filter|step_by|rev)$", x[1])]
+        okl = not [x for x in calls_in(recv) if re.search(r"Iterator>?::(take|skip|filter|step_by|rev)$", x[1])]
         nxt = tm.call_term(nx[0].term, nx[0].bb)
         for (x, y) in loop_exit_edges(b, lp[1]):
             vals = region_value(b, (x, y))
@@ -96,7 +96,7 @@ def R1_R2_dfs(ctx):
     for fn, it in (("out_edges", "out_edges_iter"), ("in_edges", "in_edges_iter")):
         b = F.need(G + fn)
         rt = nosite(deep_strip(Terms(b).return_term()))
-        ok = contains(rt, lambda s: s == ("call", G + it, (("arg", 1), ("arg", 2)))) and not [x for x in calls_in(rt) if re.search(r"Iterator::(take|skip|filter|step_by|rev)$", x[1])]
+        ok = contains(rt, lambda s: s == ("call", G + it, (("arg", 1), ("arg", 2)))) and not [x for x in calls_in(rt) if re.search(r"Iterator>?::(take|skip|filter|step_by|rev)$", x[1])]
         ctx.check(ok, "Graph::%s" % fn, "Graph::%s is not the collected %s" % (fn, it), b.where(), detail=it)
 
 
@@ -123,7 +123,7 @@ def R2_passes(ctx):
     ok1 = len(nx1) == 1
     if ok1:
         recv = deep_strip(tm.operand(nx1[0].args[0], nx1[0].bb))
-        ok1 = contains(recv, lambda s: s[0] == "call" and s[1] == G + "vertex_ids") and not [x for x in calls_in(recv) if re.search(r"Iterator::(take|skip|filter|step_by)$", x[1])]
+        ok1 = contains(recv, lambda s: s[0] == "call" and s[1] == G + "vertex_ids") and not [x for x in calls_in(recv) if re.search(r"Iterator>?::(take|skip|filter|step_by)$", x[1])]
         ok1 = ok1 and a(p1, 1) == unmut(nosite(deep_strip(tm.call_term(nx1[0].term, nx1[0].bb))))
     ctx.check(ok1, "pass1:all-vertices", "pass 1 does not start a search from every vertex id", p1.where(), detail="for v in graph.vertex_ids()")
     vis1, st1 = root_local(b, p1.args[2]), root_local(b, p1.args[3])
@@ -140,7 +140,7 @@ def R2_passes(ctx):
         nx2 = [c for c in b.calls() if c.func.get("method") == "next" and c.bb in l2[1]]
         if nx2:
             recv = deep_strip(tm.operand(nx2[0].args[0], nx2[0].bb))
-            okp = bool([x for x in calls_in(recv) if x[1].endswith("Iterator::rev")])
+            okp = bool([x for x in calls_in(recv) if itm(x[1], "rev")])
     ctx.check(okp, "pass2:lifo", "pass 2 does not consume the finishing stack last-in first-out", b.where(), detail="container.pop()")
     if len(pops) == 1:
         root = unmut(nosite(strip_try(deep_strip(tm.call_term(pops[0].term, pops[0].bb)))))
@@ -186,7 +186,7 @@ def R3_largest(ctx):
         return
     recv = deep_strip(tm.operand(nx[0].args[0], nx[0].bb))
     comps = strip_try(deep_strip(tm.call_term(src[0].term, src[0].bb)))
-    ctx.check(contains(recv, lambda s: s == comps) and not [x for x in calls_in(recv) if re.search(r"Iterator::(take|skip|filter|step_by)$", x[1])], "over-all-components", "the loop does not range over all components", nx[0].where())
+    ctx.check(contains(recv, lambda s: s == comps) and not [x for x in calls_in(recv) if re.search(r"Iterator>?::(take|skip|filter|step_by)$", x[1])], "over-all-components", "the loop does not range over all components", nx[0].where())
     lp = innermost_loop(b, nx[0].bb)
     # no early normal exit
     okx = lp is not None
